@@ -36,8 +36,9 @@ ParseFrom(file, pos, snap, acc) ==
                          Append(acc, [hdr |-> hdr, data |-> SubSeq(file, pos + 17, pos + 16 + cap)]))
 Parse(file) == ParseFrom(file, 24, U32(SubSeq(file, 17, 20)), <<>>)
 
-\* a record as the script observed it: [hdr (16 bytes, from the fields it read), data (bytes written back out)]
-SameRec(r, o) == o.k = "rec" /\ o.hdr = r.hdr /\ o.data = r.data
+\* a record as the script observed it: [hdr (16 bytes, from the fields it read), data (bytes written back out),
+\* whdr (the record header pcap_write wrote for it)]: writing a packet reproduces its record, header included
+SameRec(r, o) == o.k = "rec" /\ o.hdr = r.hdr /\ o.data = r.data /\ o.whdr = r.hdr
 SameRecs(rs, os) == Len(rs) = Len(os) /\ \A i \in 1..Len(rs) : SameRec(rs[i], os[i])
 Min2(a, b) == IF a < b THEN a ELSE b
 
